@@ -27,6 +27,10 @@ def gen_elev(ctx):
     out = []
     for n in list(range(0, 41)) * (1 if ctx.quick() else 6):
         out.append({"n": n, "rows": rand_rows(rng, n, rng.randint(1, 4), 30, 10)})
+    # decimal (non-dyadic) data: (n v)/n is not v in binary64 for many v, so the end points must be COPIED, not recomputed
+    for n in list(range(1, 41)) * (1 if ctx.quick() else 6):
+        rows = [[Fraction(float(Fraction(rng.randint(-1000, 1000), 10))) for _ in range(n + 1)] for _ in range(rng.randint(1, 3))]
+        out.append({"n": n, "rows": rows, "float": True})
     return out
 
 
@@ -91,6 +95,9 @@ def whole(res, c):
 def coq_elev(c, obs):
     if obs[0][0] in ("exc", "malformed"):
         return None
+    if c.get("float"):
+        big = max(abs(x) for r in c["rows"] for x in r) or Fraction(1)
+        return ["(%s, %s, 0, %s)" % (coq_list(c["rows"][i]), coq_list(out), coq_q(8 * U * big)) for (_k, i, out) in obs]
     return ["(%s, %s, %s, 0)" % (coq_list(c["rows"][i]), coq_list(out), coq_q(U)) for (_k, i, out) in obs]
 
 
